@@ -98,7 +98,6 @@ fn strict_conditions(text: &str, square: bool) -> Result<(), &'static str> {
                 return Err("non-zero-diagonal");
             }
             for j in 0..size {
-                // names must be distinct for the by-name fill to address each cell; checked by the caller
                 if vals[i][j] != vals[j][i] {
                     return Err("asymmetric");
                 }
@@ -149,12 +148,9 @@ fn parse_all(text: &str, q: &mut Q, rep: &mut Report, oracles: bool) {
         }
         if oracles && a.starts_with("ok") && e != "tril" {
             // strictness: an accepted text satisfies every documented condition
-            let taxa: Vec<&str> = text.lines().skip(1).filter_map(|l| l.split_whitespace().next()).collect();
-            let distinct = { let mut t = taxa.clone(); t.sort(); t.dedup(); t.len() == taxa.len() };
-            if distinct {
-                if let Err(why) = strict_conditions(text, e == "strict-square") {
-                    rep.oracle("strict", why, &req, "accepted");
-                }
+            // (whatever the row labels are: a repeated label does not make an asymmetric matrix symmetric)
+            if let Err(why) = strict_conditions(text, e == "strict-square") {
+                rep.oracle("strict", why, &req, "accepted");
             }
         }
         q.reqs.push(req);
@@ -192,7 +188,18 @@ fn gen_taxa(rng: &mut Rng, n: usize) -> Vec<String> {
 
 fn roundtrip(rng: &mut Rng, q: &mut Q, rep: &mut Report) {
     let n = match rng.below(12) { 0 => 1, 1 => 2, 2 => 0, _ => rng.range(1, 25) };
-    let taxa = gen_taxa(rng, n);
+    let mut taxa = gen_taxa(rng, n);
+    // repeated labels: "any distance matrix whose taxon names contain no whitespace" does not ask for distinct names, and
+    // the text formats address cells by POSITION
+    let dup = n >= 2 && rng.chance(1, 6);
+    if dup {
+        for _ in 0..rng.range(1, 3) {
+            let (i, j) = (rng.below(n), rng.below(n));
+            taxa[i] = taxa[j].clone();
+        }
+        rep.count("roundtrip:repeated-labels");
+    }
+    let _ = dup;
     let kind = match rng.below(3) { 0 => LenKind::Dyadic, 1 => LenKind::Decimal, _ => LenKind::Wild };
     let f32mode = rng.chance(1, 3);
     let cells64: Vec<f64> = (0..tri(n)).map(|_| gen_len(rng, kind)).collect();
@@ -263,6 +270,17 @@ fn mutated(rng: &mut Rng, q: &mut Q, rep: &mut Report) {
         12 => { if lines.len() > 1 { let i = rng.range(1, lines.len() - 1); lines[i] = lines[i].replace("  ", "\u{2003}\t"); } }
         _ => lines[0] = "-0".into(),
     }
+    // on top of the mutation, sometimes give one row the label of another row
+    if kind != 6 && lines.len() > 2 && rng.chance(1, 4) {
+        let i = rng.range(1, lines.len() - 1);
+        let j = rng.range(1, lines.len() - 1);
+        if i != j {
+            let lab = lines[j].split_whitespace().next().unwrap_or("x").to_string();
+            let rest: Vec<String> = lines[i].split_whitespace().skip(1).map(|x| x.to_string()).collect();
+            lines[i] = if rest.is_empty() { lab } else { format!("{lab}    {}", rest.join("  ")) };
+            rep.count("mutation:+repeated-label");
+        }
+    }
     if !lines.is_empty() || kind != 6 {
         if kind != 6 {
             text = lines.join("\n");
@@ -313,7 +331,9 @@ pub fn run(thorough: bool, seed: u64, driver: &str, rep: &mut Report) {
                 Job::Corpus => {
                     for t in ["", "0\n", "1\na\n", "2\na  0  1\nb  1  0\n", "2\na  0  1\nb  1  0\nc  1  1\n", "2\na  0  1  7\nb  1  0\n", "2\na  0  1\nb  2  0\n", "2\na  1  1\nb  1  0\n",
                               "3\na\nb  1\nc  2  3\n", "3\na\nb  1\nc  2  3  4\n", "3\na\nb  1\n", "2\na\nb  x\n", "2\na\n\nb  1\n", "+2\na\nb  1\n", "2 \na\nb  1\n", "2\r\na\r\nb  1\r\n",
-                              "18446744073709551616\n", "2\na\nb  1  zz\n", "2\na  0  1\na  1  0\n", "1\na  0\n", "1\na  5\n", "0", "2\na  0  nan\nb  nan  0\n", "2\na  0  inf\nb  inf  0\n", "2\na  -0  1e0\nb  1.0  0.0\n"] {
+                              "18446744073709551616\n", "2\na\nb  1  zz\n", "2\na  0  1\na  1  0\n", "1\na  0\n", "1\na  5\n", "0", "2\na  0  nan\nb  nan  0\n", "2\na  0  inf\nb  inf  0\n", "2\na  -0  1e0\nb  1.0  0.0\n",
+                              // found while proving the symmetry clause (its hypothesis "pairwise different names" was forced by the proof)
+                              "3\na 0 1 0\nb 1 0 1\na 0 0 0\n", "2\na 0 1\na 1 0\n", "2\na\na 1\n", "3\na 0 1 2\nb 1 0 3\na 2 3 0\n"] {
                         rep.case(&format!("text {}", hex(t)), true);
                         parse_all(t, &mut q, rep, true);
                         rep.count("corpus");
